@@ -141,7 +141,7 @@ class C16(PropBase):
                 "non-error status, the clean end of the whole body and parser Ok on exactly those bytes; it then equals downloaded bytes "
                 "(+ one newline iff they lack a final newline) + `INFO URL u\\n`; tmp is as before after every finished run and holds at most "
                 "the one in-flight file while pending; every non-success run leaves the whole cache untouched; local paths and cache decide "
-                "before the network (only NotFound cascades); a later cache hit gives the same table and URL without a request (under the "
+                "before the network (only NotFound cascades); servers are asked in order, once each; a later cache hit gives the same table and URL without a request (under the "
                 "stated parser contract). Runtime behaviour NOT modelled but exercised: reqwest/hyper/tokio, NamedTempFile RAII, rename atomicity — "
                 "the real HttpSymbolSupplier runs against a scripted loopback server (every truncation point, chunkings, cascades, I/O failures, "
                 "drops at poll boundaries) and is compared with the extracted model; an independent oracle re-checks cache/tmp trees and the re-hit.",
@@ -195,6 +195,11 @@ class C16(PropBase):
         for sc in drop_scripts:
             for d in range(0, 24 if thorough else 14):
                 add("drop", case(0, sc, drop=d))
+        many = ",".join(str(x) for x in range(17, n, 17))
+        for d in range(0, 40 if thorough else 26):
+            add("drop", case(0, [srv(framing="L" + many, body=base)], drop=d))
+            add("drop", case(0, [srv(framing="K" + many, body=base)], drop=d))
+            add("drop", case(0, [srv(framing="K" + many, cut="c%d" % (n - 30), body=base), srv(framing="L" + many, body=base)], drop=d))
         for d in range(0, 8):
             add("drop", case(0, drop_scripts[0], pre="F" + hx(base), drop=d))
             add("drop", case(0, drop_scripts[0], pre="D", drop=d))
@@ -255,7 +260,7 @@ class C16(PropBase):
         add("big", case(0, [srv(framing="L60000,120000", body=big)], drop=rng.below(40)))
         add("big", case(0, [srv(framing="K30000,60000,120000", body=big)], drop=rng.below(40)))
         # random scripts
-        nrand = 700 if not thorough else 8000
+        nrand = 1500 if not thorough else 10000
         for _ in range(nrand):
             mod = rng.below(3)
             df = MODS[mod][0]
@@ -432,6 +437,19 @@ class C16(PropBase):
             if c.served(last) is None:
                 return "lookup succeeded from a response that was not a complete 200 body"
         return None
+
+    def extra(self, ctx):
+        """coverage guard: the drop cases must really hit the window in which the temp file exists"""
+        out = []
+        for prof, answers in ctx["impl"].items():
+            drops = sum(1 for a in answers if a and "X{" in a)
+            inflight = sum(1 for a in answers if a and re.search(r"inflight=[1-9]", a))
+            ctx["info"]["drops_" + prof] = drops
+            ctx["info"]["drops_with_temp_file_in_flight_" + prof] = inflight
+            if not ctx["replay"] and drops >= 50 and inflight == 0:
+                out.append({"case": None, "profile": prof, "found_input": False,
+                            "what": "none of %d dropped lookups was dropped while its temp file existed: the drop cases no longer exercise the RAII window" % drops})
+        return out
 
     def nontrivial(self, case, ans):
         return ("DROPPED" in ans) or bool(re.search(r"c=[0-9a-f]", ans))
